@@ -188,7 +188,7 @@ def histories(ctx, n, steps):
         for _s in range(steps):
             (tp, ap, ea), (tq, aq, eb) = rng.choice(regs), rng.choice(regs)
             op = rng.choice(['add', 'sub', 'neg', 'eq', 'sum', 'roundtrip', 'addassign', 'subassign', 'csel', 'cassign', 'cswap', 'cneg',
-                             'mul', 'mulbase', 'dsm', 'msm'])
+                             'mul', 'mulbase', 'dsm', 'msm', 'precomp'])
             if op == 'mul':
                 k = rng.choice([0, 1, 2, L - 1, rng.randrange(L), rng.randrange(1 << 20)])
                 aff = vals.Pt(ea * k % L, 0).affine()
@@ -196,6 +196,19 @@ def histories(ctx, n, steps):
                 rid = ctx.add('rs.mul', tp, cs(k), expect=pts.both(pts.expect_rs(aff), pts.tok_is(2, enc), pts.tok_is(3, enc)),
                               cls=['history', 'history:scalarmul'])
                 regs.append((ctx.ref(rid, 1), aff, ea * k % L))
+            elif op == 'precomp':
+                # VartimeRistrettoPrecomputation: static points with scalars of every size (digits beyond the small NAF
+                # table widths), optional dynamic part
+                ns_, nd_ = rng.choice([1, 2, 3]), rng.choice([0, 1, 2])
+                sp_ = [rng.choice(regs) for _ in range(ns_)]
+                dp_ = [rng.choice(regs) for _ in range(nd_)]
+                sk_ = [rng.choice([0, 1, 15, 16, 17, 127, 128, 255, L - 1, rng.randrange(L)]) for _ in range(ns_)]
+                dk_ = [rng.choice([0, 1, L - 1, rng.randrange(L)]) for _ in range(nd_)]
+                e = (sum(k * it[2] for k, it in zip(sk_, sp_)) + sum(k * it[2] for k, it in zip(dk_, dp_))) % L
+                aff = vals.Pt(e, 0).affine()
+                rid = ctx.add('rs.precomp', lst([it[0] for it in sp_]), lst([cs(k) for k in sk_]), lst([cs(k) for k in dk_]),
+                              lst([it[0] for it in dp_]), expect=pts.expect_rs(aff), cls=['history', 'history:scalarmul'])
+                regs.append((ctx.ref(rid, 1), aff, e))
             elif op == 'mulbase':
                 k = rng.choice([0, 1, L - 1, rng.randrange(L)])
                 aff = vals.Pt(k, 0).affine()
@@ -290,7 +303,7 @@ def task(prop, seed, size, cfgbins):
 
 def run(prop, tier, seed, t0):
     from .. import plan
-    cfgs = ['simd', 'serial32', 'fiat64'] if tier == 'quick' else plan.ALL_CFGS
+    cfgs = ['simd', 'serial32', 'fiat64', 'avx512'] if tier == 'quick' else plan.ALL_CFGS
     bins, notes, failed = plan.bins_for(cfgs, ('rel', 'chk') if tier == 'thorough' else ('rel',))
     if failed:
         return plan.fail_build(prop, failed)
